@@ -292,8 +292,9 @@ pub fn q03(a: u64, b: u64) -> u64 { block_on(async { let r = std::future::ready(
 pub fn q04(a: u64, b: u64) -> u64 { async fn run(a: u64, b: u64) -> Result<u64, u64> { let x = fallible(a % 8).await?; let y = fallible(b % 8 + 1).await.unwrap_or(7); Ok(x + y) } match block_on(run(a, b)) { Ok(v) => v, Err(e) => 1000 + e } }
 pub fn q05(a: u64, b: u64) -> u64 { let cache: parking_lot::Mutex<HashMap<u64, u64>> = parking_lot::Mutex::new(HashMap::new()); let get = |k: u64| cache.lock().get(&k).copied(); let fut = async { let k = a % 6; if let Some(v) = get(k) { return v; } let v = twice(k).await; cache.lock().insert(k, v); let again = get(k).unwrap_or(0); v + again * 100 }; let r = block_on(fut); let n = cache.lock().len() as u64; r + n * 10000 }
 pub fn q06(a: u64, b: u64) -> u64 { let f = |x: u64| async move { twice(x).await + b % 3 }; block_on(async { let p = f(a % 5).await; let q = f(p).await; p + q * 100 }) }
+pub fn p12(a: u64, b: u64) -> u64 { trait W { fn w(&self) -> u64; fn dflt(&self) -> u64 { 3 } } impl W for u64 { fn w(&self) -> u64 { *self + 1 } } impl W for String { fn w(&self) -> u64 { self.len() as u64 } fn dflt(&self) -> u64 { 4 } } fn behind<P>(p: &P) -> u64 where P: std::ops::Deref, P::Target: W { std::mem::size_of::<P>() as u64 + (**p).w() * 10 + p.dflt() * 1000 } behind(&Box::new(a % 9)) + behind(&Rc::new(format!("x{}", b % 10))) * 10000 + behind(&Arc::new(7u64)) * 100000000 }
 
 macro_rules! table4 { ($($n:literal => $f:ident),* $(,)?) => {
     pub fn run4(n: u32, a: u64, b: u64) -> Option<u64> { match n { $($n => Some($f(a, b)),)* _ => None } }
 } }
-table4! { 401 => l01, 402 => l02, 403 => l03, 404 => l04, 405 => l05, 406 => l06, 407 => l07, 408 => l08, 409 => l09, 410 => l10, 501 => n01, 502 => n02, 503 => n03, 504 => n04, 505 => n05, 506 => n06, 507 => n07, 508 => n08, 509 => n09, 510 => n10, 511 => n11, 512 => n12, 601 => p01, 602 => p02, 603 => p03, 604 => p04, 605 => p05, 606 => p06, 607 => p07, 608 => p08, 609 => p09, 610 => p10, 611 => p11, 701 => q01, 702 => q02, 703 => q03, 704 => q04, 705 => q05, 706 => q06 }
+table4! { 401 => l01, 402 => l02, 403 => l03, 404 => l04, 405 => l05, 406 => l06, 407 => l07, 408 => l08, 409 => l09, 410 => l10, 501 => n01, 502 => n02, 503 => n03, 504 => n04, 505 => n05, 506 => n06, 507 => n07, 508 => n08, 509 => n09, 510 => n10, 511 => n11, 512 => n12, 601 => p01, 602 => p02, 603 => p03, 604 => p04, 605 => p05, 606 => p06, 607 => p07, 608 => p08, 609 => p09, 610 => p10, 611 => p11, 612 => p12, 701 => q01, 702 => q02, 703 => q03, 704 => q04, 705 => q05, 706 => q06 }
